@@ -13,6 +13,8 @@ package main
 //	func Time(..) { if val.Before(_min) || val.After(_max) { return Field{..} }; return Field{..} }
 //	func Cs(key string, xs []T) Field { return Array(key, wrapper(xs)) }  + wrapper's MarshalLogArray loop
 //	generic variants (type parameters constrained by ObjectMarshaler, Stringer, ObjectMarshalerPtr, ~string)
+//	wrapper loops: arr.M(e) | if err := arr.M(e); err != nil { return err } | the same through a
+//	    recover-guarded helper h(arr, e) making exactly one arr.AppendString(x.String()) call (stringerHelper)
 //
 // E is an expression of c03_common.go.
 
@@ -61,6 +63,7 @@ type c03Collect struct {
 	wtypes   map[string]*ast.TypeSpec
 	wpkg     map[string]string
 	methods  map[string]*ast.FuncDecl // "<qualified type>.<method>"
+	helpers  map[string]*ast.FuncDecl // every other package-level function, by qualified name
 	vars     map[string]ast.Expr
 }
 
@@ -87,7 +90,7 @@ func c03RecvTypeName(e ast.Expr) string {
 
 func c03CollectAll(s *c03Src) (*c03Collect, error) {
 	c := &c03Collect{s: s, funcs: map[string]*ast.FuncDecl{}, fpkg: map[string]string{}, wrappers: map[string]bool{},
-		wtypes: map[string]*ast.TypeSpec{}, wpkg: map[string]string{}, methods: map[string]*ast.FuncDecl{}, vars: map[string]ast.Expr{}}
+		wtypes: map[string]*ast.TypeSpec{}, wpkg: map[string]string{}, methods: map[string]*ast.FuncDecl{}, helpers: map[string]*ast.FuncDecl{}, vars: map[string]ast.Expr{}}
 	for _, f := range s.files {
 		for _, d := range f.f.Decls {
 			switch x := d.(type) {
@@ -98,6 +101,7 @@ func c03CollectAll(s *c03Src) (*c03Collect, error) {
 					continue
 				}
 				if x.Type.Results == nil || len(x.Type.Results.List) != 1 || !c03IsFieldType(s, x.Type.Results.List[0].Type) {
+					c.helpers[c03Qual(f.pkg, x.Name.Name)] = x
 					continue
 				}
 				q := c03Qual(f.pkg, x.Name.Name)
@@ -351,6 +355,38 @@ func (c *c03Collect) ret(xe *c03XEnv, q string, e ast.Expr) (string, error) {
 
 // ---------- wrappers ----------
 
+// A loop body may delegate the append to a same-package helper of exactly this shape (the policy of
+// Stringer fields applied to array elements):
+//
+//	func h(arr zapcore.ArrayEncoder, stringer fmt.Stringer) (retErr error) {
+//	    defer func() { if err := recover(); err != nil {
+//	        if v := reflect.ValueOf(stringer); v.Kind() == reflect.Ptr && v.IsNil() { arr.AppendString("<nil>"); return }
+//	        retErr = fmt.Errorf("PANIC=%v", err) } }()
+//	    arr.AppendString(stringer.String())
+//	    return nil }
+//
+// On the path where String() does not panic -- the only one inside C03's quantifier; what happens to
+// a panicking or nil element is C10's subject -- it makes exactly one call, arr.AppendString(x.String()),
+// and returns nil.  Anything else is an error.
+func (c *c03Collect) stringerHelper(pkg, name string) (method string, err error) {
+	s := c.s
+	fd := c.helpers[c03Qual(pkg, name)]
+	if fd == nil {
+		return "", fmt.Errorf("helper %s not found in the anchored files", name)
+	}
+	pn, pt := c.flatParams(fd)
+	if fd.Recv != nil || fd.Type.TypeParams != nil || len(pn) != 2 || s.src(pt[0]) != "zapcore.ArrayEncoder" || s.src(pt[1]) != "fmt.Stringer" ||
+		fd.Type.Results == nil || len(fd.Type.Results.List) != 1 || len(fd.Type.Results.List[0].Names) != 1 || s.src(fd.Type.Results.List[0].Type) != "error" {
+		return "", s.errf(fd, "helper %s does not have the signature (arr zapcore.ArrayEncoder, x fmt.Stringer) (retErr error)", name)
+	}
+	arr, x, ret := pn[0], pn[1], fd.Type.Results.List[0].Names[0].Name
+	want := fmt.Sprintf(`{ defer func() { if err := recover(); err != nil { if v := reflect.ValueOf(%[2]s); v.Kind() == reflect.Ptr && v.IsNil() { %[1]s.AppendString("<nil>") return } %[3]s = fmt.Errorf("PANIC=%%v", err) } }() %[1]s.AppendString(%[2]s.String()) return nil }`, arr, x, ret)
+	if got := s.src(fd.Body); got != want {
+		return "", s.errf(fd, "helper %s is not the known recover-guarded AppendString(x.String()) (want body %q)", name, want)
+	}
+	return "AppendString", nil
+}
+
 const c03ErrArrayBody = `{ for i := range errs { if errs[i] == nil { continue } elem := _errArrayElemPool.Get() elem.error = errs[i] err := arr.AppendObject(elem) elem.error = nil _errArrayElemPool.Put(elem) if err != nil { return err } } return nil }`
 const c03ErrElemBody = `{ Error(e.error).AddTo(enc) return nil }`
 
@@ -441,6 +477,17 @@ func (c *c03Collect) wrapper(q string) (string, error) {
 		ce, ok := e.(*ast.CallExpr)
 		if !ok {
 			return "", "", s.errf(e, "not a call")
+		}
+		if id, isIdent := ce.Fun.(*ast.Ident); isIdent && len(ce.Args) == 2 && s.src(ce.Args[0]) == encName {
+			m, err := c.stringerHelper(pkg, id.Name)
+			if err != nil {
+				return "", "", err
+			}
+			v, err := xe.expr(ce.Args[1])
+			if err != nil {
+				return "", "", err
+			}
+			return m, "(EStringOf " + v + ")", nil
 		}
 		sel, ok := ce.Fun.(*ast.SelectorExpr)
 		if !ok || s.src(sel.X) != encName {
